@@ -47,6 +47,12 @@ package internal
 //@ ensures fin: !isinf(pt(p)) ==> len(result) == 65 && cap(result) == 65 && result[0] == 4 && be(result[1:33]) == affx(pt(p)) && be(result[33:65]) == affy(pt(p))
 //@ assigns nothing
 
+//@ func (*sm2/internal.SM2Point).Bytes
+//@ mode int
+//@ ensures inf: isinf(pt(p)) ==> len(result) == 1 && result[0] == 0
+//@ ensures fin: !isinf(pt(p)) ==> len(result) == 65 && cap(result) == 65 && result[0] == 4 && be(result[1:33]) == affx(pt(p)) && be(result[33:65]) == affy(pt(p))
+//@ assigns nothing
+
 //@ func (*sm2/internal.SM2Point).GetAffineX_Unsafe
 //@ mode int
 //@ ensures val: *result == ite(isinf(pt(p)), 0, affx(pt(p)))
@@ -80,3 +86,30 @@ package internal
 //@ mode int
 //@ ensures val: result == isinf(pt(p))
 //@ assigns nothing
+
+// ---------------------------------------------------------------------------------------------
+// Constant-time contracts (property C08): which parameters carry secrets, which values are
+// declassified and why. Checked by `govc ct` (information-flow obligations on every branch,
+// index, slice bound, allocation size, division and call to a variable-time function).
+// ---------------------------------------------------------------------------------------------
+
+//@ func sm2/internal.ScalarBaseMult#ct
+//@ secret k
+//@ public_result 1
+
+//@ func sm2/internal.ScalarMult#ct
+//@ secret scalar
+//@ public_result 1
+
+//@ func (*sm2/internal.SM2Point).GetAffineX#ct
+//@ secret p
+//@ declassify p.z.IsZero() == 1 : point-at-infinity verdict (never taken for a scalar in [1, n-1])
+//@ declassify xx : the affine x-coordinate is what every caller publishes (r = (e + x) mod n with r and e public); only the projective representation is secret
+//@ public_result
+
+//@ func (*sm2/internal.SM2Point).Bytes#ct
+//@ secret p
+
+// helper analysed in the context of its callers (no secret clause of its own)
+//@ func (*sm2/internal.SM2Point).bytes#ct
+//@ declassify p.z.IsZero() == 1 : point-at-infinity verdict (the encoding of infinity has a different length anyway)
